@@ -1,0 +1,10 @@
+//go:build verif
+
+// Contracts for the govc verifier (/verif). Comment-only; compiled only with -tags verif.
+// rootDomainOK is defined in /verif/specs/url.ghost.
+
+package domutil
+
+//@ func HasRootDomain(url, root)
+//@   fresh_assigns net/url.URL.*
+//@   ensures [C19] #host-equal-or-dot-suffix result == rootDomainOK(url, root)
